@@ -4,8 +4,15 @@ Property theorems only.  Models: `FlexModel/Fac/CamTM.lean`, `FlexModel/Fac/VamT
 rules (monitors over the event log of a run): `FlexModel/Fac/CamSpec.lean`, `FlexModel/Fac/VamSpec.lean`;
 helper lemmas: `FlexModel/Fac/CamLemmas.lean`, `FlexModel/Fac/VamLemmas.lean`.
 
-Every theorem quantifies over ALL operation sequences (any length, any times, any reports) and over the
-static configuration; proofs are by induction on the sequence through a one-step simulation.
+Every theorem quantifies over ALL operation sequences (any length, any times, any reports, start / stop / restart,
+timer expiries racing with stop(), failures injected while the PDU is built, in the coder, in the BTP request and
+in the LDM feed), over the static configuration and over the distance function `hav`; proofs are by induction on
+the sequence through a one-step simulation.  An emitted CAM / VAM in the log is a TRANSMISSION.
+
+Variant flags of the models (`ldmIsolated`, `restartHold`, `lfAfterSend`): `true` = the repaired code
+(fixes/C10-cam-ldm-failure, fixes/C10-cam-restart-min-gap, fixes/C10-vam-lf-time-after-send); the full theorems are
+stated for the repaired variants, a `_witness` theorem shows the violation of each unrepaired one, and
+`code_is_repaired_variant` ties the flags to facts regenerated from the source.
 -/
 import FlexModel.Fac.CamLemmas
 import FlexModel.Fac.VamLemmas
@@ -13,81 +20,152 @@ import FlexModel.Fac.VamLemmas
 namespace Props.C10
 open FlexModel.Fac FlexModel.Fac.Mon
 
+/-! ## facts regenerated from the source (harness/gen_facflow.py → Generated/FacFlow.lean) -/
+
+/-- the shape of the code the models rely on: the expiry callback returns at once when the service is not active,
+re-arms in a `finally`, `_schedule_next_check` refuses while inactive, `stop()` cancels the timer;
+`_generate_and_send_cam` writes no management state itself and calls `_update_send_state` only after the
+Annex B.2.5 `try` (whose handler returns); the VAM callback compares generationDeltaTime values only through the
+wrap-aware subtraction. -/
+theorem code_shape :
+    Generated.FacFlow.CAM_CHECK_GUARDED = true ∧ Generated.FacFlow.CAM_CHECK_REARMS_IN_FINALLY = true ∧
+    Generated.FacFlow.CAM_SCHEDULE_GUARDED = true ∧ Generated.FacFlow.CAM_STOP_CANCELS_TIMER = true ∧
+    Generated.FacFlow.CAM_GENERATE_STATE_WRITES = [] ∧ Generated.FacFlow.CAM_UPDATE_AFTER_SEND_TRY = true ∧
+    Generated.FacFlow.VAM_GDT_RAW_COMPARISONS = 0 := by decide
+
+/-- the code is the repaired variant of each of the three defects of this round (the LDM feed cannot abort the
+bookkeeping of a transmitted CAM; the restart hold exists; the VAM low-frequency timer is recorded after the BTP
+request) — false on a tree that lacks the fixes, where the `_witness` theorems below apply instead -/
+theorem code_is_repaired_variant :
+    Generated.FacFlow.CAM_LDM_ISOLATED = true ∧ Generated.FacFlow.CAM_RESTART_HOLD = true ∧
+    Generated.FacFlow.VAM_LF_TIME_AFTER_SEND = true := by decide
+
 /-! ## CAM (CAMTransmissionManagement) -/
 section cam
 open FlexModel.Fac.Cam FlexModel.Fac.CamSpec FlexModel.Fac.CamLemmas
 
 /-- the event log of a run from the freshly constructed object -/
-def camLog (cfg : Cfg) (ops : List Cam.Op) : List CamSpec.Ev := events Cam.step (Cam.init cfg) ops
+def camLog (hav : Pos → Pos → Nat) (cfg : Cfg) (ops : List Cam.Op) : List CamSpec.Ev :=
+  events (Cam.step hav) (Cam.init cfg) ops
 
-/-- nothing is sent before `start`, after `stop`, or by anything but a T_CheckCamGen expiry -/
-theorem cam_silent_when_inactive (cfg : Cfg) (ops : List Cam.Op) :
-    accepts silentMon {} (camLog cfg ops) = true :=
-  accepts_of_sim Cam.step silentMon (fun s m => m.active = s.active) silent_sim ops _ _ rfl
+/-- nothing is sent before `start`, after `stop`, or by anything but a T_CheckCamGen callback — including a callback
+whose timer had already expired when `stop()` ran (`expire, stop, check`).  Every variant. -/
+theorem cam_silent_when_inactive (hav : Pos → Pos → Nat) (cfg : Cfg) (ops : List Cam.Op) :
+    accepts silentMon {} (camLog hav cfg ops) = true :=
+  accepts_of_sim (Cam.step hav) silentMon (fun s m => m.active = s.active) (silent_sim hav) ops _ _ rfl
 
-/-- consecutive CAMs of one activation are at least T_GenCamMin = 100 ms apart (no assumption on the clock) -/
-theorem cam_min_gap (cfg : Cfg) (ops : List Cam.Op) :
-    accepts minGapMon {} (camLog cfg ops) = true :=
-  accepts_of_sim Cam.step minGapMon (fun s m => m.active = s.active ∧ m.last = s.lastCamTime)
-    minGap_sim ops _ _ ⟨rfl, rfl⟩
+/-- consecutive CAMs of one activation are at least T_GenCamMin = 100 ms apart (no assumption on the clock, on the
+timer or on where transmissions fail) -/
+theorem cam_min_gap (hav : Pos → Pos → Nat) (cfg : Cfg) (hI : cfg.ldmIsolated = true) (ops : List Cam.Op) :
+    accepts minGapMon {} (camLog hav cfg ops) = true :=
+  accepts_of_sim (Cam.step hav) minGapMon CamLemmas.MinRel (minGap_sim hav) ops _ _ ⟨hI, rfl, rfl⟩
 
-/-- the first serviceable check of an activation sends, and while a report is present, sends succeed and
-checks are at most `P` apart, consecutive CAMs are at most T_GenCamMax + P = 1000 + P ms apart (for every P) -/
-theorem cam_max_gap (P : Nat) (cfg : Cfg) (ops : List Cam.Op) :
-    accepts (maxGapMon P) {} (camLog cfg ops) = true :=
-  accepts_of_sim Cam.step (maxGapMon P) MaxRel (maxGap_sim P) ops _ _
-    ⟨rfl, rfl, rfl, (inv_init cfg).1, (inv_init cfg).2.1, by intro t ht; simp at ht⟩
+/-- ALL consecutive CAMs are at least T_GenCamMin apart, across stop/start cycles too (repaired variant) -/
+theorem cam_min_gap_all_activations (hav : Pos → Pos → Nat) (cfg : Cfg) (hI : cfg.ldmIsolated = true)
+    (hH : cfg.restartHold = true) (ops : List Cam.Op) :
+    accepts gMinGapMon {} (camLog hav cfg ops) = true :=
+  accepts_of_sim (Cam.step hav) gMinGapMon GMinRel (gMinGap_sim hav) ops _ _ ⟨hI, hH, rfl, rfl⟩
 
-/-- the invariant behind `cam_max_gap`: T_GenCamMin ≤ T_GenCam ≤ T_GenCamMax in every reachable state, and a
-T_CheckCamGen timer is pending exactly while the service is active (the loop survives failed sends) -/
-theorem cam_tgen_bounds_and_timer (cfg : Cfg) (ops : List Cam.Op) :
-    let s := final Cam.step (Cam.init cfg) ops
-    Generated.Fac.T_GEN_CAM_MIN ≤ s.tGenCam ∧ s.tGenCam ≤ Generated.Fac.T_GEN_CAM_MAX ∧ s.armed = s.active :=
-  inv_final Cam.step CamInv inv_step ops _ (inv_init cfg)
+/-- unrepaired variant (no restart hold): a stop/start cycle sends the first CAM of the new activation at once,
+here 7 ms after the previous CAM; the monitor of `cam_min_gap_all_activations` rejects that run and accepts the
+repaired one, which holds the CAM back until 100 ms have passed -/
+theorem cam_min_gap_restart_witness :
+    let ops : List Cam.Op := [.start, .report default, .check 1000 .none, .stop, .start, .check 1007 .none, .check 1107 .none]
+    accepts gMinGapMon {} (camLog (fun _ _ => 0) { restartHold := false } ops) = false ∧
+    (camLog (fun _ _ => 0) { restartHold := false } ops).filterMap (fun e => e.2.map (·.t)) = [1000, 1007, 1107] ∧
+    (camLog (fun _ _ => 0) {} ops).filterMap (fun e => e.2.map (·.t)) = [1000, 1107] := by decide
 
-/-- responsiveness: a check at which ≥ 100 ms have elapsed and heading (wrap-aware) / position / speed differ
-from the values lastly included in a CAM by more than 4° / 4 m / 0.5 m/s generates a CAM (if the send succeeds) -/
-theorem cam_responsive (cfg : Cfg) (ops : List Cam.Op) :
-    accepts respMon {} (camLog cfg ops) = true :=
-  accepts_of_sim Cam.step respMon RespRel resp_sim ops _ _ ⟨rfl, rfl, rfl, rfl, rfl, rfl⟩
+/-- the first serviceable check of an activation sends (unless held back by the restart hold), and while a report is
+present, no transmission attempt fails and checks are at most `P` apart, consecutive CAMs are at most
+T_GenCamMax + P = 1000 + P ms apart (for every P) -/
+theorem cam_max_gap (hav : Pos → Pos → Nat) (P : Nat) (cfg : Cfg) (hI : cfg.ldmIsolated = true) (ops : List Cam.Op) :
+    accepts (maxGapMon cfg.restartHold P) {} (camLog hav cfg ops) = true :=
+  accepts_of_sim (Cam.step hav) (maxGapMon cfg.restartHold P) (MaxRel cfg.restartHold) (maxGap_sim hav cfg.restartHold P)
+    ops _ _ ⟨hI, rfl, rfl, rfl, rfl, (inv_init cfg).1, (inv_init cfg).2.1, by intro t ht; simp at ht, rfl, rfl⟩
 
-/-- low-frequency container: present in the first CAM of an activation and in every CAM generated ≥ 500 ms after
-the last CAM that carried it, absent from every other CAM -/
-theorem cam_lf_rule (cfg : Cfg) (ops : List Cam.Op) :
-    accepts lfMon {} (camLog cfg ops) = true :=
-  accepts_of_sim Cam.step lfMon CamLemmas.LfRel CamLemmas.lf_sim ops _ _ ⟨rfl, rfl, fun _ => rfl⟩
+/-- the invariant behind `cam_max_gap`: T_GenCamMin ≤ T_GenCam ≤ T_GenCamMax in every reachable state, and while
+the service is active a T_CheckCamGen timer is pending or a callback is in flight (the loop survives failed sends,
+exceptions leaving the callback, and stop/start races) -/
+theorem cam_tgen_bounds_and_timer_loop (hav : Pos → Pos → Nat) (cfg : Cfg) (ops : List Cam.Op) :
+    let s := final (Cam.step hav) (Cam.init cfg) ops
+    Generated.Fac.T_GEN_CAM_MIN ≤ s.tGenCam ∧ s.tGenCam ≤ Generated.Fac.T_GEN_CAM_MAX ∧
+      (s.active = true → 1 ≤ s.live + s.inflight) :=
+  inv_final (Cam.step hav) CamInv (inv_step hav) ops _ (inv_init cfg)
+
+/-- responsiveness: a check at which ≥ 100 ms have elapsed and heading (wrap-aware) / position / speed differ from
+the values lastly included in a CAM by more than 4° / 4 m (`hav` of the position lastly included and the current
+one) / 0.5 m/s generates a CAM (if the transmission does not fail) -/
+theorem cam_responsive (hav : Pos → Pos → Nat) (cfg : Cfg) (hI : cfg.ldmIsolated = true) (ops : List Cam.Op) :
+    accepts (respMon hav) {} (camLog hav cfg ops) = true :=
+  accepts_of_sim (Cam.step hav) (respMon hav) RespRel (resp_sim hav) ops _ _ ⟨hI, rfl, rfl, rfl, rfl, rfl, rfl⟩
+
+/-- low-frequency container: present in the first transmitted CAM of an activation and in every CAM transmitted
+≥ 500 ms after the last transmitted CAM that carried it, absent from every other CAM — whatever transmission
+attempts failed in between -/
+theorem cam_lf_rule (hav : Pos → Pos → Nat) (cfg : Cfg) (hI : cfg.ldmIsolated = true) (ops : List Cam.Op) :
+    accepts lfMon {} (camLog hav cfg ops) = true :=
+  accepts_of_sim (Cam.step hav) lfMon CamLemmas.LfRel (CamLemmas.lf_sim hav) ops _ _ ⟨hI, rfl, rfl, fun _ => rfl⟩
+
+/-- unrepaired variant (a raising LDM aborts the bookkeeping after the BTP request): every check transmits a CAM
+with the low-frequency container, 100 ms apart, and T_GenCam never takes effect; the repaired variant sends the
+second CAM without it -/
+theorem cam_lf_rule_ldm_witness :
+    let ops : List Cam.Op := [.start, .report { (default : Cam.Tpv) with heading := some 0 }, .check 1000 .ldm, .check 1100 .ldm,
+      .check 1200 .ldm]
+    accepts lfMon {} (camLog (fun _ _ => 0) { ldmIsolated := false } ops) = false ∧
+    (camLog (fun _ _ => 0) { ldmIsolated := false } ops).filterMap (fun e => e.2.map (fun c => (c.t, c.lf))) =
+      [(1000, true), (1100, true), (1200, true)] ∧
+    (camLog (fun _ _ => 0) {} ops).filterMap (fun e => e.2.map (fun c => (c.t, c.lf))) = [(1000, true), (1100, false)] := by
+  decide
 
 /-- every CAM is built from the latest report, is stamped with the time of its check, and carries
-generationDeltaTime = (ITS timestamp of that report) mod 65536 -/
-theorem cam_latest_report_and_gdt (cfg : Cfg) (ops : List Cam.Op) :
-    accepts latestMon {} (camLog cfg ops) = true :=
-  accepts_of_sim Cam.step latestMon (fun s m => m.cur = s.cur) latest_sim ops _ _ rfl
+generationDeltaTime = (ITS timestamp of that report) mod 65536.  Every variant. -/
+theorem cam_latest_report_and_gdt (hav : Pos → Pos → Nat) (cfg : Cfg) (ops : List Cam.Op) :
+    accepts latestMon {} (camLog hav cfg ops) = true :=
+  accepts_of_sim (Cam.step hav) latestMon (fun s m => m.cur = s.cur) (latest_sim hav) ops _ _ rfl
 
 /-- the monitors are not vacuous: they reject logs that break the rules -/
-example : accepts minGapMon {} [(.start, none), (.check 1000 0 true, some { (default : CamOut) with t := 1000 }),
-    (.check 1099 0 true, some { (default : CamOut) with t := 1099 })] = false := by decide
-example : accepts (maxGapMon 100) {} [(.start, none), (.report default, none),
-    (.check 1000 0 true, some default), (.check 1100 0 true, none), (.check 1200 0 true, none),
-    (.check 1300 0 true, none), (.check 1400 0 true, none), (.check 1500 0 true, none), (.check 1600 0 true, none),
-    (.check 1700 0 true, none), (.check 1800 0 true, none), (.check 1900 0 true, none), (.check 2000 0 true, none),
-    (.check 2100 0 true, none), (.check 2200 0 true, none)] = false := by decide
-example : accepts lfMon {} [(.start, none), (.check 1000 0 true, some { (default : CamOut) with lf := false })] = false := by
+example : accepts silentMon {} [(.start, none), (.expire true, none), (.stop, none),
+    (.check 1000 .none, some default)] = false := by decide
+example : accepts minGapMon {} [(.start, none), (.check 1000 .none, some { (default : CamOut) with t := 1000 }),
+    (.check 1099 .none, some { (default : CamOut) with t := 1099 })] = false := by decide
+example : accepts gMinGapMon {} [(.start, none), (.check 1000 .none, some { (default : CamOut) with t := 1000 }),
+    (.stop, none), (.start, none), (.check 1050 .none, some { (default : CamOut) with t := 1050 })] = false := by decide
+example : accepts (maxGapMon true 100) {} [(.start, none), (.report default, none),
+    (.check 1000 .none, some default), (.check 1100 .none, none), (.check 1200 .none, none),
+    (.check 1300 .none, none), (.check 1400 .none, none), (.check 1500 .none, none), (.check 1600 .none, none),
+    (.check 1700 .none, none), (.check 1800 .none, none), (.check 1900 .none, none), (.check 2000 .none, none),
+    (.check 2100 .none, none), (.check 2200 .none, none)] = false := by decide
+/-- a held-back first CAM is only excused for T_GenCamMin -/
+example : accepts (maxGapMon true 100) {} [(.start, none), (.report default, none), (.check 1000 .none, some default),
+    (.stop, none), (.start, none), (.check 1050 .none, none), (.check 1150 .none, none)] = false := by decide
+example : accepts lfMon {} [(.start, none), (.check 1000 .none, some { (default : CamOut) with lf := false })] = false := by
   decide
-example : accepts respMon {} [(.start, none),
-    (.report { rid := 1, its := none, heading := some 35900, speed := none, hasPos := false }, none),
-    (.check 1000 0 true, some default),
-    (.report { rid := 2, its := none, heading := some 500, speed := none, hasPos := false }, none),
-    (.check 1100 0 true, none)] = false := by decide
-/-- and a real run is accepted with CAMs in it: first CAM immediately, second after T_GenCam -/
-example : (camLog {} [.start, .report { rid := 1, its := some 70000, heading := some 9000, speed := some 1000, hasPos := true },
-    .check 1000 0 true, .check 1100 0 true]).map (fun e => e.2.map (fun c => (c.t, c.lf, c.gdt))) =
-    [none, none, some (1000, true, 4464), some (1100, false, 4464)] := by decide
-
-/-- Interpretation made explicit: the minimum interval is per activation.  Across a stop/start cycle the code
-sends the first CAM of the new activation at once (here 7 ms after the previous CAM). -/
-theorem cam_restart_gap_witness :
-    (camLog {} [.start, .report default, .check 1000 0 true, .stop, .start, .check 1007 0 true]).filterMap
-      (fun e => e.2.map (·.t)) = [1000, 1007] := by decide
+/-- a CAM transmitted although its bookkeeping failed still counts for the low-frequency rule -/
+example : accepts lfMon {} [(.start, none), (.check 1000 .ldm, some { (default : CamOut) with lf := true }),
+    (.check 1100 .none, some { (default : CamOut) with lf := true })] = false := by decide
+example : accepts (respMon (fun _ _ => 0)) {} [(.start, none),
+    (.report { rid := 1, its := none, heading := some 35900, speed := none, pos := none }, none),
+    (.check 1000 .none, some default),
+    (.report { rid := 2, its := none, heading := some 500, speed := none, pos := none }, none),
+    (.check 1100 .none, none)] = false := by decide
+/-- the position clause uses the position lastly included in a CAM, not an input of the check -/
+example : accepts (respMon (fun q p => (p.1 - q.1).natAbs)) {} [(.start, none),
+    (.report { rid := 1, its := none, heading := none, speed := none, pos := some (0, 0) }, none),
+    (.check 1000 .none, some default),
+    (.report { rid := 2, its := none, heading := none, speed := none, pos := some (4001, 0) }, none),
+    (.check 1100 .none, none)] = false := by decide
+/-- and a real run is accepted with CAMs in it: first CAM immediately, second after T_GenCam; a callback in flight
+when stop() ran sends nothing; the position trigger fires on the model's own reference position -/
+example : (camLog (fun _ _ => 0) {} [.start, .report { rid := 1, its := some 70000, heading := some 9000, speed := some 1000, pos := some (1, 2) },
+    .expire true, .check 1000 .none, .expire true, .check 1100 .none, .expire true, .stop, .check 1200 .none]).map
+      (fun e => e.2.map (fun c => (c.t, c.lf, c.gdt))) =
+    [none, none, none, some (1000, true, 4464), none, some (1100, false, 4464), none, none, none] := by decide
+example : (camLog (fun q p => (p.1 - q.1).natAbs) {} [.start,
+    .report { rid := 1, its := none, heading := some 0, speed := none, pos := some (0, 0) }, .check 1000 .none, .check 1100 .none,
+    .report { rid := 2, its := none, heading := some 0, speed := none, pos := some (4001, 0) }, .check 1200 .none,
+    .check 1300 .none]).map (fun e => e.2.map (fun c => (c.t, c.cond))) =
+    [none, none, some (1000, 1), some (1100, 2), none, some (1200, 1), some (1300, 2)] := by decide
 
 end cam
 
@@ -95,34 +173,35 @@ end cam
 section vam
 open FlexModel.Fac.Vam FlexModel.Fac.VamSpec FlexModel.Fac.VamLemmas
 
-def vamLog (gated : Bool) (tGenVam : Nat) (ops : List Vam.Op) : List VamSpec.Ev :=
-  events Vam.step (Vam.init gated tGenVam) ops
+def vamLog (gated : Bool) (tGenVam : Nat) (lfAfterSend : Bool) (ops : List Vam.Op) : List VamSpec.Ev :=
+  events Vam.step (Vam.init gated tGenVam lfAfterSend) ops
 
-/-- the first report after activation (while not passive/idle) sends a VAM — for both variants, any T_GenVam -/
-theorem vam_first_report (gated : Bool) (tGenVam : Nat) (ops : List Vam.Op) :
-    accepts firstMon {} (vamLog gated tGenVam ops) = true :=
+/-- the first report after activation (while not passive/idle, transmission not failing) sends a VAM — every
+variant, any T_GenVam -/
+theorem vam_first_report (gated : Bool) (tGenVam : Nat) (lfa : Bool) (ops : List Vam.Op) :
+    accepts firstMon {} (vamLog gated tGenVam lfa ops) = true :=
   accepts_of_sim Vam.step firstMon (fun s m => m.sent = s.lastGdt.isSome) first_sim ops _ _ rfl
 
 /-- a VAM is only sent while not passive/idle, is built from the report that triggered it, and carries
 generationDeltaTime = (ITS timestamp of that report) mod 65536 -/
-theorem vam_content (gated : Bool) (tGenVam : Nat) (ops : List Vam.Op) :
-    accepts contentMon () (vamLog gated tGenVam ops) = true :=
+theorem vam_content (gated : Bool) (tGenVam : Nat) (lfa : Bool) (ops : List Vam.Op) :
+    accepts contentMon () (vamLog gated tGenVam lfa ops) = true :=
   accepts_of_sim Vam.step contentMon (fun _ _ => True) (fun s _ op _ => by
     obtain ⟨m', h⟩ := content_sim s op; exact ⟨m', h, trivial⟩) ops _ _ trivial
 
 /-- Full strength, for the repaired variant (`gated = true`): with non-decreasing report timestamps, consecutive
 VAMs are at least T_GenVamMin = 100 ms apart on the report timestamps, whatever trigger sent them, for any
 T_GenVam (the mod-65536 subtraction included) -/
-theorem vam_min_gap (tGenVam : Nat) (ops : List Vam.Op) :
-    accepts (VamSpec.minGapMon true) {} (vamLog true tGenVam ops) = true :=
+theorem vam_min_gap (tGenVam : Nat) (lfa : Bool) (ops : List Vam.Op) :
+    accepts (VamSpec.minGapMon true) {} (vamLog true tGenVam lfa ops) = true :=
   accepts_of_sim Vam.step (VamSpec.minGapMon true) (VamLemmas.MinRel true) (VamLemmas.minGap_sim true) ops _ _
     ⟨Or.inl rfl, by intro t ht; simp at ht⟩
 
 /-- The code as it is (`gated = false`, known finding C10-KF1): the minimum interval holds for every VAM sent by
 the elapsed-time trigger (or first), provided T_GenVam ≥ T_GenVamMin; VAMs sent by the position / speed /
 heading triggers are outside this statement. -/
-theorem vam_min_gap_partial (tGenVam : Nat) (h : VamSpec.T_GenVamMin ≤ tGenVam) (ops : List Vam.Op) :
-    accepts (VamSpec.minGapMon false) {} (vamLog false tGenVam ops) = true :=
+theorem vam_min_gap_partial (tGenVam : Nat) (lfa : Bool) (h : VamSpec.T_GenVamMin ≤ tGenVam) (ops : List Vam.Op) :
+    accepts (VamSpec.minGapMon false) {} (vamLog false tGenVam lfa ops) = true :=
   accepts_of_sim Vam.step (VamSpec.minGapMon false) (VamLemmas.MinRel false) (VamLemmas.minGap_sim false) ops _ _
     ⟨Or.inr ⟨rfl, h⟩, by intro t ht; simp at ht⟩
 
@@ -132,18 +211,19 @@ theorem vam_min_gap_witness :
     let r1 : Vam.Tpv := { rid := 1, its := some 1000000, pos := some (410000000, 20000000), speed := some 1000, heading := some 9000 }
     let r2 : Vam.Tpv := { rid := 2, its := some 1000020, pos := some (410000000, 20000000), speed := some 3000, heading := some 9000 }
     let ops : List Vam.Op := [{ r := r1, wall := 5000, gate := true }, { r := r2, wall := 5020, gate := true }]
-    accepts (VamSpec.minGapMon true) {} (vamLog false 100 ops) = false ∧
-    accepts (VamSpec.minGapMon true) {} (vamLog true 100 ops) = true ∧
-    (vamLog false 100 ops).filterMap (fun e => e.2.map (fun c => (c.its, c.trig))) = [(some 1000000, 0), (some 1000020, 3)] := by
+    accepts (VamSpec.minGapMon true) {} (vamLog false 100 true ops) = false ∧
+    accepts (VamSpec.minGapMon true) {} (vamLog true 100 true ops) = true ∧
+    (vamLog false 100 true ops).filterMap (fun e => e.2.map (fun c => (c.its, c.trig))) = [(some 1000000, 0), (some 1000020, 3)] := by
   decide
 
-/-- while reports with timestamps keep arriving at most `R` apart (non-decreasing) and the station is neither
-passive nor idle, consecutive VAMs are at most T_GenVamMax + R = 5000 + R ms apart and no report is left more
-than T_GenVamMax after the last VAM — for both variants, every T_GenVam ≤ T_GenVamMax and every R with
-R + max(T_GenVam, T_GenVamMin) ≤ 65536 (so that the mod-65536 elapsed time is unambiguous) -/
-theorem vam_max_gap (gated : Bool) (tGenVam R : Nat) (hT : tGenVam ≤ VamSpec.T_GenVamMax)
+/-- while reports with timestamps keep arriving at most `R` apart (non-decreasing), the station is neither
+passive nor idle and no transmission attempt fails, consecutive VAMs are at most T_GenVamMax + R = 5000 + R ms
+apart and no report is left more than T_GenVamMax after the last VAM — for every variant, every
+T_GenVam ≤ T_GenVamMax and every R with R + max(T_GenVam, T_GenVamMin) ≤ 65536 (so that the mod-65536 elapsed
+time is unambiguous); the timestamps themselves are unbounded: any number of generationDeltaTime wraps -/
+theorem vam_max_gap (gated : Bool) (tGenVam R : Nat) (lfa : Bool) (hT : tGenVam ≤ VamSpec.T_GenVamMax)
     (hR : R + tGenVam ≤ 65536) (hR' : R + VamSpec.T_GenVamMin ≤ 65536) (ops : List Vam.Op) :
-    accepts (VamSpec.maxGapMon R) {} (vamLog gated tGenVam ops) = true := by
+    accepts (VamSpec.maxGapMon R) {} (vamLog gated tGenVam lfa ops) = true := by
   have hmm : VamSpec.T_GenVamMin ≤ VamSpec.T_GenVamMax := by decide
   refine accepts_of_sim Vam.step (VamSpec.maxGapMon R) (VamLemmas.MaxRel R (max tGenVam VamSpec.T_GenVamMin))
     (VamLemmas.maxGap_sim R _) ops _ _ ⟨⟨?_, ?_, ?_, ?_⟩, by intro t ht; simp at ht⟩
@@ -158,13 +238,28 @@ theorem vam_max_gap (gated : Bool) (tGenVam R : Nat) (hT : tGenVam ≤ VamSpec.T
 example : Generated.Fac.T_GENVAMMIN ≤ VamSpec.T_GenVamMax ∧ 60000 + Generated.Fac.T_GENVAMMIN ≤ 65536 ∧
     Generated.Fac.T_GENVAMMAX = VamSpec.T_GenVamMax ∧ Generated.Fac.T_GENVAMMIN = VamSpec.T_GenVamMin := by decide
 
-/-- low-frequency container: present in the first VAM and in every VAM generated ≥ 2000 ms (wall clock at
-sending) after the last VAM that carried it, absent from every other VAM -/
+/-- low-frequency container (repaired variant `lfAfterSend`): present in the first transmitted VAM and in every VAM
+transmitted ≥ 2000 ms (wall clock at sending) after the last transmitted VAM that carried it — whatever
+transmission attempts failed in between; in no other VAM except one that also carries a cluster-operation
+container (TS 103 300-3 clause 6.2, `has_cluster_op`) -/
 theorem vam_lf_rule (gated : Bool) (tGenVam : Nat) (ops : List Vam.Op) :
-    accepts VamSpec.lfMon {} (vamLog gated tGenVam ops) = true :=
-  accepts_of_sim Vam.step VamSpec.lfMon VamLemmas.LfRel VamLemmas.lf_sim ops _ _ ⟨rfl, fun _ => rfl⟩
+    accepts VamSpec.lfMon {} (vamLog gated tGenVam true ops) = true :=
+  accepts_of_sim Vam.step VamSpec.lfMon VamLemmas.LfRel VamLemmas.lf_sim ops _ _ ⟨rfl, rfl, fun _ => rfl⟩
 
-/-- non-vacuity: the monitors reject a late VAM / a missing first VAM / a wrong LF decision -/
+/-- unrepaired variant (the low-frequency timer is advanced before the transmission attempt): after a failed
+attempt that was due to carry the container the next VAM goes out without it, 2.1 s after the last VAM that
+carried it; the repaired variant includes it -/
+theorem vam_lf_rule_failed_send_witness :
+    let r (i t : Nat) : Vam.Tpv := { rid := i, its := some t, pos := none, speed := none, heading := none }
+    let ops : List Vam.Op := [{ r := r 1 1000000, wall := 0, gate := true },
+      { r := r 2 1002000, wall := 2000, gate := true, fail := true }, { r := r 3 1002100, wall := 2100, gate := true }]
+    accepts VamSpec.lfMon {} (vamLog false 100 false ops) = false ∧
+    (vamLog false 100 false ops).filterMap (fun e => e.2.map (fun c => (c.wall, c.lf))) = [(0, true), (2100, false)] ∧
+    (vamLog false 100 true ops).filterMap (fun e => e.2.map (fun c => (c.wall, c.lf))) = [(0, true), (2100, true)] := by
+  decide
+
+/-- non-vacuity: the monitors reject a late VAM / a missing first VAM / a wrong LF decision; a cluster-operation
+container excuses an extra LF container but not a missing one -/
 example : accepts (VamSpec.maxGapMon 1000) {}
     [(({ r := { (default : Vam.Tpv) with its := some 10000 }, wall := 0, gate := true } : Vam.Op), some default),
      ({ r := { (default : Vam.Tpv) with its := some 11000 }, wall := 0, gate := true }, none),
@@ -173,9 +268,27 @@ example : accepts (VamSpec.maxGapMon 1000) {}
      ({ r := { (default : Vam.Tpv) with its := some 14000 }, wall := 0, gate := true }, none),
      ({ r := { (default : Vam.Tpv) with its := some 15000 }, wall := 0, gate := true }, none),
      ({ r := { (default : Vam.Tpv) with its := some 16000 }, wall := 0, gate := true }, none)] = false := by decide
+/-- the same across a generationDeltaTime wrap (timestamps 60000 … 66000 ↦ gdt 60000 … 464) -/
+example : accepts (VamSpec.maxGapMon 1000) {}
+    [(({ r := { (default : Vam.Tpv) with its := some 60000 }, wall := 0, gate := true } : Vam.Op), some default),
+     ({ r := { (default : Vam.Tpv) with its := some 61000 }, wall := 0, gate := true }, none),
+     ({ r := { (default : Vam.Tpv) with its := some 62000 }, wall := 0, gate := true }, none),
+     ({ r := { (default : Vam.Tpv) with its := some 63000 }, wall := 0, gate := true }, none),
+     ({ r := { (default : Vam.Tpv) with its := some 64000 }, wall := 0, gate := true }, none),
+     ({ r := { (default : Vam.Tpv) with its := some 65000 }, wall := 0, gate := true }, none),
+     ({ r := { (default : Vam.Tpv) with its := some 66000 }, wall := 0, gate := true }, none)] = false := by decide
 example : accepts firstMon {} [(({ r := default, wall := 0, gate := true } : Vam.Op), none)] = false := by decide
 example : accepts VamSpec.lfMon {} [(({ r := default, wall := 0, gate := true } : Vam.Op),
     some { (default : VamOut) with lf := false })] = false := by decide
+example : accepts VamSpec.lfMon {} [(({ r := default, wall := 0, gate := true } : Vam.Op), some { (default : VamOut) with lf := true }),
+    ({ r := default, wall := 100, gate := true }, some { (default : VamOut) with lf := true })] = false := by decide
+example : accepts VamSpec.lfMon {} [(({ r := default, wall := 0, gate := true } : Vam.Op), some { (default : VamOut) with lf := true }),
+    ({ r := default, wall := 100, gate := true, clusterOp := true }, some { (default : VamOut) with lf := true })] = true := by decide
+/-- the model really produces the cluster-operation case, and VAMs across a generationDeltaTime wrap -/
+example : (vamLog false 100 true [{ r := { (default : Vam.Tpv) with its := some 65500 }, wall := 0, gate := true },
+    { r := { (default : Vam.Tpv) with its := some 65600 }, wall := 100, gate := true, clusterOp := true },
+    { r := { (default : Vam.Tpv) with its := some 65700 }, wall := 200, gate := true }]).map
+      (fun e => e.2.map (fun c => (c.gdt, c.lf))) = [some (65500, true), some (64, true), some (164, false)] := by decide
 
 end vam
 end Props.C10
